@@ -334,6 +334,15 @@ func (x *Exec) havocLoop(s *State, written map[string]bool, wrLocal map[types.Ob
 		if n == "$alloc" {
 			continue
 		}
+		if strings.HasPrefix(n, "$ghost.") {
+			// a ghost assigned by a call-site rule inside the loop: arbitrary at the loop head
+			// (constrained only by the loop invariants)
+			g := strings.TrimPrefix(n, "$ghost.")
+			if _, ok := s.ghost[g]; ok {
+				s.ghost[g] = Val{K: KInt, S: x.eng.fresh("ghost."+g, sInt)}
+			}
+			continue
+		}
 		if cur, ok := s.heap[n]; ok {
 			if !strings.HasPrefix(n, "G$") {
 				lh.pre[n] = cur
